@@ -254,6 +254,16 @@ func (w *c14watch) quiescent(strict bool, d time.Duration) (exec.VerifManagerSna
 	return last, false
 }
 
+// last returns the newest snapshot of the (single) manager this watch follows.
+func (w *c14watch) last() (exec.VerifManagerSnapshot, bool) {
+	w.mu.Lock()
+	defer w.mu.Unlock()
+	for _, s := range w.lastSnap {
+		return s, true
+	}
+	return exec.VerifManagerSnapshot{}, false
+}
+
 func (w *c14watch) snapshots() int {
 	w.mu.Lock()
 	defer w.mu.Unlock()
@@ -314,25 +324,80 @@ func runC14live(t *vf.T, c c14live) {
 	t.Count("capacities_checked_against_max_load_share", 1)
 	maxNeed, killed := 0, 0
 	killedAddrs := map[string]bool{}
+	// recvAll receives on every queued request at once (round-robin polling: the manager offers a
+	// machine to one request at a time, and not in the order the requests were made) until nothing
+	// has been granted for d.
 	recvAll := func(d time.Duration) {
-		for i := 0; i < len(pending); {
-			p := pending[i]
-			m, ok := p.o.Recv(d)
-			if !ok {
-				i++
-				continue
+		quietSince := time.Now()
+		for len(pending) > 0 && time.Since(quietSince) < d {
+			for i := 0; i < len(pending); {
+				p := pending[i]
+				m, ok := p.o.Recv(time.Millisecond)
+				if !ok {
+					i++
+					continue
+				}
+				quietSince = time.Now()
+				ledger[m.Addr()] += p.procs
+				if ledger[m.Addr()] > capOf {
+					t.Violate(sig+" client-ledger-oversubscribed", fmt.Sprintf("machine %s was granted %d procs in total while its capacity is %d", m.Addr(), ledger[m.Addr()], capOf))
+				}
+				granted = append(granted, &c14grant{m, p.procs})
+				pending = append(pending[:i], pending[i+1:]...)
+				t.Count("offers_granted", 1)
 			}
-			ledger[m.Addr()] += p.procs
-			if ledger[m.Addr()] > capOf {
-				t.Violate(sig+" client-ledger-oversubscribed", fmt.Sprintf("machine %s was granted %d procs in total while its capacity is %d", m.Addr(), ledger[m.Addr()], capOf))
+		}
+	}
+	// A queued request that fits on an available machine is granted: when requests stay queued
+	// although their requesters are receiving, the manager's own newest state is put to the
+	// independent statement of the placement rule (refSchedule over the queue and the healthy
+	// machines). If the rule grants, the requesters keep receiving -- generously, the wait ends
+	// with the first grant -- and a state that still grants with nothing granted after that is
+	// a request that fits on an available machine and is not granted. Nothing else happens
+	// meanwhile (the script is the only client), so the manager's state cannot move except by
+	// machines starting or stopping, which only a newer snapshot can show.
+	grantable := func() (string, bool) {
+		snap, ok := w.last()
+		if !ok || len(pending) == 0 || snap.QueueLen != len(pending) {
+			return "", false
+		}
+		var reqs []exec.VerifReq
+		for _, p := range pending {
+			reqs = append(reqs, exec.VerifReq{Priority: p.prio, Procs: p.procs})
+		}
+		var machs []exec.VerifMach
+		for _, m := range snap.Machines {
+			if m.Health == "ok" && !killedAddrs[m.Addr] {
+				machs = append(machs, exec.VerifMach{MaxTaskProcs: m.MaxTaskProcs, TaskProcs: m.TaskProcs})
 			}
-			granted = append(granted, &c14grant{m, p.procs})
-			pending = append(pending[:i], pending[i+1:]...)
-			t.Count("offers_granted", 1)
+		}
+		prio, procs, free, ok := refSchedule(reqs, machs)
+		if !ok {
+			return "", false
+		}
+		return fmt.Sprintf("request (prio %d, procs %d) fits on a healthy machine with %d free procs; queue=%+v machines=%+v", prio, procs, free, reqs, snap.Machines), true
+	}
+	mustGrant := func(where string) {
+		if _, ok := grantable(); !ok {
+			return
+		}
+		t.Count("grantable_states_followed_up", 1)
+		n0 := len(pending)
+		for i := 0; i < 100 && len(pending) == n0; i++ {
+			recvAll(300 * time.Millisecond)
+			if _, ok := grantable(); !ok {
+				return
+			}
+		}
+		if desc, ok := grantable(); ok && len(pending) == n0 {
+			t.Violate(sig+" fitting-request-not-granted", fmt.Sprintf("%s: after 30 s of receiving on every queued request none was granted although the manager's newest state says: %s", where, desc))
 		}
 	}
 	need := 0
 	for _, ev := range c.Events {
+		if t.Failed() {
+			break
+		}
 		switch ev.Op {
 		case "offer":
 			procs := 1 + ev.Procs%capOf
@@ -344,6 +409,7 @@ func runC14live(t *vf.T, c c14live) {
 			t.Count("offers", 1)
 		case "recv":
 			recvAll(300 * time.Millisecond)
+			mustGrant("recv")
 		case "cancel":
 			if len(pending) > 0 {
 				i := ev.Pick % len(pending)
@@ -406,6 +472,9 @@ func runC14live(t *vf.T, c c14live) {
 			g.m.Done(g.procs, nil)
 		}
 		granted = nil
+		if round == 20 {
+			mustGrant("drain")
+		}
 		if round > 20 {
 			for _, p := range pending {
 				if m, ok := p.o.Recv(time.Millisecond); ok {
@@ -618,6 +687,26 @@ func runC14(r *vf.Runner) {
 		} {
 			c := c14live{Kind: "live", MachProcs: mp, MaxLoad: 1, MaxP: mp, Events: evs}
 			r.Case(c, func(t *vf.T) { runC14live(t, c) })
+		}
+	}
+	// fixed: two machines filled with one-proc tasks; one task ends (ok, application error,
+	// transport error), on either machine and in either position; a request queued behind the full
+	// machines must then be granted where the room is (a transport error puts the machine on
+	// probation: then nothing is available and nothing is asked)
+	for _, mp := range []int{2, 3} {
+		for _, end := range []string{"done-ok", "done-remote", "done-transport"} {
+			for pick := 0; pick < 2*mp; pick++ {
+				var evs []c14ev
+				for i := 0; i < 2*mp; i++ {
+					evs = append(evs, c14ev{Op: "offer"})
+				}
+				evs = append(evs, c14ev{Op: "recv"}, c14ev{Op: "offer"}, c14ev{Op: "pause"}, c14ev{Op: end, Pick: pick}, c14ev{Op: "pause"}, c14ev{Op: "recv"})
+				c := c14live{Kind: "live", MachProcs: mp, MaxLoad: 1, MaxP: 2 * mp, Events: evs}
+				r.Case(c, func(t *vf.T) {
+					runC14live(t, c)
+					t.Count("freed_room_histories", 1)
+				})
+			}
 		}
 	}
 	for i := 0; i < n; i++ {
